@@ -250,7 +250,9 @@ func (c *ctx) exploreSDB(start string, prefix []sOp, depth int, sh *sdbShared) p
 					c.run.Report(map[string]string{"part": "statedb", "kind": "merge-root-differs", "op": ops[len(ops)-1].Op, "input": r.input}, k,
 						fmt.Sprintf("[statedb] histories %q and %q end in the same content but have roots %x and %x", sHistString(sh.rootHist[r.ckey]), sHistString(ops), prev[:6], r.root[:6]))
 				}
-			} else {
+			} else if r.input == "plain" {
+				// (a history of a known-defective input class never becomes the
+				// reference history other histories are compared with)
 				sh.rootOf[r.ckey] = r.root
 				sh.rootHist[r.ckey] = ops
 			}
@@ -399,8 +401,9 @@ func main() {
 	}
 
 	// quick: coarse residency classes, reference root cached per content;
-	// thorough: the stated bound (depth 7) under the coarse classes plus depth 5
-	// under the fine classes, reference trie driven on every execution.
+	// thorough: the stated bound (depth 7) under the coarse classes (reference
+	// root cached per content as well) plus depth 5 under the fine classes with
+	// the reference trie driven through every history.
 	runs := []trieRun{
 		{"trie", "trie", true, false, 5, true},
 		{"securetrie", "securetrie", true, false, 4, true},
@@ -408,9 +411,9 @@ func main() {
 	sdbDepth := 4
 	if !run.Quick() {
 		runs = []trieRun{
-			{"trie", "trie", true, true, 7, false},
+			{"trie", "trie", true, true, 7, true},
 			{"trie_fine_residency", "trie", false, true, 5, false},
-			{"securetrie", "securetrie", true, true, 7, false},
+			{"securetrie", "securetrie", true, true, 7, true},
 			{"securetrie_fine_residency", "securetrie", false, true, 5, false},
 		}
 		sdbDepth = 5
@@ -457,9 +460,9 @@ func main() {
 	add("statedb_empty", stEmpty)
 	add("statedb_seeded", stSeeded)
 
-	refRule := "the reference trie is driven through the same history on every execution"
-	if run.Quick() {
-		refRule = "the reference trie is driven through the same history on every execution that discovers a new state; the other executions compare the in-tree root with the reference root recorded for the same content"
+	refRule := "the reference trie is driven through the same history on every execution that discovers a new state; the other executions compare the in-tree root with the reference root recorded for the same content"
+	if !run.Quick() {
+		refRule += " (in the *_fine_residency explorations the reference trie is driven through every history)"
 	}
 	cov["states"] = states
 	cov["transitions"] = trans
